@@ -30,7 +30,7 @@ class ConcreteViolation(Exception):
 def unwrap(v):
     """Interpreter value -> contract-level value (z3 terms for scalars)."""
     if isinstance(v, SV):
-        return v.t
+        return v.t if v.nan is None else v      # possibly-NaN reals stay cells
     if isinstance(v, tuple):
         return tuple(unwrap(x) for x in v)
     return v
@@ -230,6 +230,33 @@ class SymKit(KitBase):
 
     def setitem(self, v, i, value):
         self.I.setitem(wrap(v), wrap(i), wrap(value))
+
+    def set_variant_data(self, lifted_ds, native_ds, X):
+        """Replace the data array of a (lifted) single-variant dataslate by X."""
+        v = self.I.getattr(lifted_ds, "_variants")[0]
+        v = self.I.lift(v)
+        self.I.getattr(lifted_ds, "_variants")[0] = v
+        self.I.setattr(v, "data", X)
+
+    def register_source(self, fn, src, label="generated"):
+        """Tell the engine the source text of a function created by exec() at run time (checked by bytecode)."""
+        S.register_generated(fn, src, label)
+
+    def lift(self, native):
+        """Interpreter view of a native repository object (attributes become analysable values)."""
+        return self.I.lift(native)
+
+    def eval_expr(self, src, env, globals_=None):
+        """Evaluate a python expression given as text (code that the repository generates) on symbolic values."""
+        import ast as _ast
+        from .interp import Frame
+        from .values import Func
+        tree = _ast.parse(src, mode="eval")
+        f = Func(_ast.Lambda(args=_ast.arguments(posonlyargs=[], args=[], kwonlyargs=[], kw_defaults=[], defaults=[]), body=tree.body),
+                 dict(globals_ or {}), None, qualname="<generated expression>")
+        fr = Frame(f)
+        fr.locals.update({k: wrap(v) for k, v in env.items()})
+        return unwrap(self.I.eval(tree.body, fr))
 
     def instantiate(self, key):
         """Instantiate every universally quantified fact assumed from callee contracts at `key` (sound: an
@@ -519,6 +546,20 @@ class ConcKit(KitBase):
 
     def setitem(self, v, i, value):
         v[i] = value
+
+    def register_source(self, fn, src, label="generated"):
+        pass
+
+    def set_variant_data(self, lifted_ds, native_ds, X):
+        native_ds._variants[0].data = X
+
+    def lift(self, native):
+        return native
+
+    def eval_expr(self, src, env, globals_=None):
+        g = dict(globals_ or {})
+        g.update(env)
+        return eval(src, g)
 
     def capture(self, owner, name, thunk):
         calls = []
